@@ -144,11 +144,13 @@ Definition reg_agree (c : regcase) : bool :=
   let ny := gsum Qops ns (fun s => Qred (nth s (r_ys c) 0 * nth s (r_ys c) 0)) in
   (* predictions with the new factor, computed once: cpreg_normal_lhs = sum_s MTTKRP_s(i,r) * (y_s - prediction_s) *)
   let preds := map (fun X => cp_inner Qops X w (set_nth (r_k c) (r_xnew c) (r_facs c)) (r_rank c)) (r_Xs c) in
+  (* the MTTKRP of every sample (the rows of the model's design matrix), computed once *)
+  let Mts := map (fun X => cp_mttkrp_mat Qops X w (r_facs c) (r_k c) (r_rank c)) (r_Xs c) in
+  let mt := fun (s i r : nat) => mget Qops (nth s Mts []) i r in
   forall_lt dk (fun i => forall_lt (r_rank c) (fun r =>
-    let lhs := gsum Qops ns (fun s => Qred (cp_mttkrp Qops (nth s (r_Xs c) (mk [] [])) w (r_facs c) (r_k c) i r * (nth s (r_ys c) 0 - nth s preds 0))) in
+    let lhs := gsum Qops ns (fun s => Qred (mt s i r * (nth s (r_ys c) 0 - nth s preds 0))) in
     let rhs := Qred (r_reg c * mget Qops (r_xnew c) i r) in
-    let sc := qsumabs ns (fun s => cp_mttkrp Qops (nth s (r_Xs c) (mk [] [])) w (r_facs c) (r_k c) i r *
-                (Qabs (nth s (r_ys c) 0) + Qabs (nth s preds 0))) in
+    let sc := qsumabs ns (fun s => mt s i r * (Qabs (nth s (r_ys c) 0) + Qabs (nth s preds 0))) in
     qle (Qabs (lhs - rhs)) (tol_cert * (sc + Qabs rhs) + atol_tiny))) &&
   (let before := cpreg_obj Qops (r_Xs c) (r_ys c) w (r_facs c) (r_k c) dk (r_rank c) (r_reg c) in
    let after := cpreg_obj Qops (r_Xs c) (r_ys c) w (set_nth (r_k c) (r_xnew c) (r_facs c)) (r_k c) dk (r_rank c) (r_reg c) in
@@ -172,12 +174,13 @@ Definition tk_agree (c : tkcase) : bool :=
   let normX2 := gsum Qops (prod (shape X)) (fun o => Qred (nth o (data X) 0 * nth o (data X) 0)) in
   let core := data (tk_core Qops X (t_after c) rs) in
   let cscale := qsumabs (prod rs) (fun q => nth q core 0) in
-  let obj_after := tk_hooi_obj Qops X rs (t_after c) in
+  let core_n2 := gsum Qops (prod rs) (fun q => Qred (nth q core 0 * nth q core 0)) in      (* = tk_core_norm2, from the core computed once *)
+  let obj_after := tk_sqerr Qops X rs core (t_after c) in                                  (* = tk_hooi_obj by definition *)
   let obj_before := tk_hooi_obj Qops X rs (t_before c) in
   orth_defect_ok (shape X) rs (t_after c) &&
   Nat.eqb (length (t_core c)) (prod rs) &&
   forall_lt (prod rs) (fun q => qle (Qabs (nth q core 0 - nth q (t_core c) 0)) (tol_match * cscale + atol_tiny)) &&
-  qle (Qabs (obj_after - (normX2 - tk_core_norm2 Qops X rs (t_after c)))) (tol_cert * normX2) &&
+  qle (Qabs (obj_after - (normX2 - core_n2))) (tol_cert * normX2) &&
   qle obj_after (obj_before + tol_cert * normX2) &&
   (* the matrix the implementation handed to the SVD of this block is the model's mode-k unfolding of X x_{j<>k} U_j'
      (unfold_k of Proofs/DescentProofsUnfold.v: the core with the unit vector e_i in place of factor k, core index 0 in mode k),
@@ -217,10 +220,12 @@ Definition tkreg_agree (c : tkregcase) : bool :=
   if g_iscore c then
     (* predictions with the new core, computed once *)
     let preds := map (fun X => tk_inner Qops X rs (g_newcore c) (g_Us c)) Xs in
+    let proj := map (fun X => data (tk_core Qops X (g_Us c) rs)) Xs in       (* projected samples, computed once *)
+    let pj := fun (s q : nat) => nth q (nth s proj []) 0 in
     forall_lt (prod rs) (fun q =>
-      let lhs := gsum Qops ns (fun s => Qred (tk_core_at Qops (nth s Xs (mk [] [])) (g_Us c) (unravel rs q) * (nth s ys 0 - nth s preds 0))) in
+      let lhs := gsum Qops ns (fun s => Qred (pj s q * (nth s ys 0 - nth s preds 0))) in
       let rhs := Qred (g_reg c * nth q (g_newcore c) 0) in
-      let sc := qsumabs ns (fun s => tk_core_at Qops (nth s Xs (mk [] [])) (g_Us c) (unravel rs q) * (Qabs (nth s ys 0) + Qabs (nth s preds 0))) in
+      let sc := qsumabs ns (fun s => pj s q * (Qabs (nth s ys 0) + Qabs (nth s preds 0))) in
       qle (Qabs (lhs - rhs)) (tol_cert * (sc + Qabs rhs) + atol_tiny)) &&
     qle (tkreg_obj_core Qops Xs ys rs (g_newcore c) (g_Us c) (g_reg c))
         (tkreg_obj_core Qops Xs ys rs (g_core c) (g_Us c) (g_reg c) + tol_obj * (ny + 1))
@@ -228,10 +233,12 @@ Definition tkreg_agree (c : tkregcase) : bool :=
     let k := g_k c in let dk := nth k (shape (nth 0 Xs (mk [] []))) 0%nat in
     let Us' := set_nth k (g_newfac c) (g_Us c) in
     let preds := map (fun X => tk_inner Qops X rs (g_core c) Us') Xs in
+    let coefs := map (fun X => tab2 dk (nth k rs 0%nat) (fun i b => tkreg_coef Qops X rs (g_core c) (g_Us c) k i b)) Xs in   (* once *)
+    let cf := fun (s i b : nat) => mget Qops (nth s coefs []) i b in
     forall_lt dk (fun i => forall_lt (nth k rs 0%nat) (fun b =>
-      let lhs := gsum Qops ns (fun s => Qred (tkreg_coef Qops (nth s Xs (mk [] [])) rs (g_core c) (g_Us c) k i b * (nth s ys 0 - nth s preds 0))) in
+      let lhs := gsum Qops ns (fun s => Qred (cf s i b * (nth s ys 0 - nth s preds 0))) in
       let rhs := Qred (g_reg c * mget Qops (g_newfac c) i b) in
-      let sc := qsumabs ns (fun s => tkreg_coef Qops (nth s Xs (mk [] [])) rs (g_core c) (g_Us c) k i b * (Qabs (nth s ys 0) + Qabs (nth s preds 0))) in
+      let sc := qsumabs ns (fun s => cf s i b * (Qabs (nth s ys 0) + Qabs (nth s preds 0))) in
       qle (Qabs (lhs - rhs)) (tol_cert * (sc + Qabs rhs) + atol_tiny))) &&
     qle (tkreg_obj_fac Qops Xs ys rs (g_core c) Us' k dk (g_reg c))
         (tkreg_obj_fac Qops Xs ys rs (g_core c) (g_Us c) k dk (g_reg c) + tol_obj * (ny + 1)).
